@@ -168,8 +168,32 @@ def check_areas(spec: dict) -> dict:
     stripped = False
     regions_cleared = False
     core_now = {gene["name"]: set(gene.get("core_for", [])) for gene in spec["genes"]}
+    added: set = set()
+    peeks = 0
+
+    def peek() -> None:
+        """ reading an area in the middle of a build: it lists exactly the genes added so far that it contains (and the
+            read must not change what later reads give) """
+        areas = [("protocluster", a) for a in record.get_protoclusters()]
+        areas += [("candidate", a) for a in record.get_candidate_clusters()]
+        areas += [("subregion", a) for a in record.get_subregions()]
+        areas += [("region", a) for a in record.get_regions()]
+        for label, area in areas:
+            loc_spec = ring.from_bio(area.location)
+            got = _area_names(area)
+            want = {name for name in added if ring.contains(loc_spec, genes[name]["loc"])}
+            if set(got) != want or len(got) != len(set(got)):
+                raise Violation("area_members_midway", {"area": label, "location": loc_spec, "got": sorted(got),
+                                                        "missing": sorted(want - set(got)),
+                                                        "extra": sorted(set(got) - want), "ops": spec["ops"]})
+
     for op in spec["ops"]:
         kind, _, index = op.partition(":")
+        if kind == "peek":
+            with code_under_test("build_total"):
+                peek()
+            peeks += 1
+            continue
         with code_under_test("build_total"):
             if kind == "strip":
                 # everything antiSMASH added goes: areas and gene functions; the genes stay. Areas added afterwards
@@ -193,6 +217,7 @@ def check_areas(spec: dict) -> dict:
                 if areas_present:
                     added_after_area = True
                 record.add_cds_feature(cds_objects[f"g{index}"])
+                added.add(f"g{index}")
             elif kind == "proto":
                 record.add_protocluster(protos[int(index)])
                 areas_present = True
@@ -267,6 +292,7 @@ def check_areas(spec: dict) -> dict:
                         "gene_after_area" if added_after_area else "genes_first",
                         "stripped_and_rebuilt" if stripped else "built_once",
                         "regions_cleared_once" if regions_cleared else "regions_never_cleared",
+                        "read_midway" if peeks else "read_at_end_only",
                         "has_regions" if regions else "no_regions",
                         "span_area" if any(len(a.location.parts) > 1 for _, a in collections) else "plain_areas"]}
 
@@ -365,6 +391,10 @@ def area_specs(draw):
         missing = [f"cds:{i}" for i in range(len(genes)) if f"cds:{i}" not in ops]
         second = list(draw(st.permutations(again + readd))) + ["cands", "regions"]
         ops = ops + missing + ["strip"] + second
+    if draw(st.booleans()):
+        # areas read in the middle of the build (a read fills caches that later additions have to invalidate)
+        for _ in range(draw(st.integers(1, 4))):
+            ops.insert(draw(st.integers(0, len(ops))), "peek")
     return {"L": length, "circular": circular, "genes": genes, "protoclusters": protos,
             "subregions": subs, "ops": ops}
 
